@@ -596,14 +596,48 @@ func checkBudgetTransport(r *Run, prog *Program, a *Anchors, newParser, maxExprO
 		}
 	}
 	r.Check(pfx+".transport", "setOptions:applies-each", "grammar/grammar.go", okSO, "setOptions must call every option with the parser")
-	okP := false
-	for _, b := range a.Parse.Blocks {
-		for _, ins := range b.Instrs {
-			if c, ok := ins.(*ssa.Call); ok && c.Call.StaticCallee() == newParser && len(c.Call.Args) == 3 && c.Call.Args[2] == ssa.Value(a.Parse.Params[2]) && c.Call.Args[1] == ssa.Value(a.Parse.Params[1]) {
-				okP = true
+	// directly, or through an unexported helper of the package that is handed both and hands both on
+	var forwards func(fn *ssa.Function, bp, op ssa.Value, depth int) bool
+	forwards = func(fn *ssa.Function, bp, op ssa.Value, depth int) bool {
+		if depth > 3 {
+			return false
+		}
+		for _, b := range fn.Blocks {
+			for _, ins := range b.Instrs {
+				c, ok := ins.(*ssa.Call)
+				if !ok {
+					continue
+				}
+				callee := c.Call.StaticCallee()
+				if callee == nil {
+					continue
+				}
+				if callee == newParser {
+					if len(c.Call.Args) == 3 && c.Call.Args[2] == op && c.Call.Args[1] == bp {
+						return true
+					}
+					continue
+				}
+				if callee.Pkg != prog.GrammarSSA || len(callee.Blocks) == 0 || callee == fn || len(callee.Params) != len(c.Call.Args) {
+					continue
+				}
+				bi, oi := -1, -1
+				for i, arg := range c.Call.Args {
+					if arg == bp {
+						bi = i
+					}
+					if arg == op {
+						oi = i
+					}
+				}
+				if bi >= 0 && oi >= 0 && forwards(callee, callee.Params[bi], callee.Params[oi], depth+1) {
+					return true
+				}
 			}
 		}
+		return false
 	}
+	okP := len(a.Parse.Params) == 3 && forwards(a.Parse, a.Parse.Params[1], a.Parse.Params[2], 0)
 	r.Check(pfx+".transport", "Parse:forwards-options", prog.pos(a.Parse.Pos()), okP, "grammar.Parse must hand its input bytes and its options to newParser unchanged")
 	_ = types.Typ
 }
